@@ -121,8 +121,26 @@ def defs_order_docs(tier):
                     yield f'<svg {G.NS} viewBox="0 0 100 100"><defs>{defs}</defs>{body}</svg>'
 
 
+def near_closed_docs(tier):
+    """contours whose last point misses the start by less / more than half a unit of the last rounded digit, at small and
+    large coordinates (where a relative comparison and an absolute one disagree); relative and absolute spellings"""
+    for base in (0.0, 1e3, 1e6, 1e9):
+        for eps in (4e-1, 4e-4, 6e-4, 4e-7, 6e-7, 1e-9):
+            if base >= 1e9 and eps < 1e-4:
+                continue
+            x0, y0 = base, 2 * base
+            a = f"M{x0!r},{y0!r} L{x0 + 10!r},{y0!r} L{x0 + 10!r},{y0 + 10!r} L{x0 + eps!r},{y0 + eps * .75!r} Z"
+            r = f"M{x0!r},{y0!r} l10,0 l0,10 l{-10 + eps!r},{-10 + eps * .75!r} z m20,0 h5 v5 z"
+            c = f"M{x0!r},{y0!r} C{x0 + 5!r},{y0 - 5!r} {x0 + 10!r},{y0 + 5!r} {x0 + 10!r},{y0 + 10!r} C{x0 + 5!r},{y0 + 12!r} {x0!r},{y0 + 6!r} {x0 - eps!r},{y0 + eps!r} Z"
+            vb = f"{x0 - 5!r} {y0 - 5!r} 40 40"
+            for d in (a, r, c):
+                yield f'<svg {G.NS} viewBox="{vb}"><path d="{d}" fill="red"/><g opacity=".5"><path d="{d}" fill="blue" transform="translate(3 3)"/><rect x="{x0!r}" y="{y0!r}" width="4" height="4"/></g></svg>'
+
+
 def corpus(tier, seed):
     """yield (source-label, document) - the union of the other checks' enumerated corpora"""
+    for d in near_closed_docs(tier):
+        yield "NEARCLOSED", d
     for d in defs_order_docs(tier):
         yield "DEFS", d
     base = G.kinds("base")
@@ -175,6 +193,8 @@ def cases(tier, seed):
             nds = [3] if k % 4 else [0, 1, 2, 3, 4, 5, 6]
         if src.startswith("F:"):
             nds = [3, 0, 6] if tier == "quick" else [0, 1, 2, 3, 4, 5, 6]
+        if src == "NEARCLOSED":
+            nds = [0, 1, 2, 3, 4, 5, 6]
         if src == "G1g":
             # kept / flattened groups: opacity products meet the coarsest and the default rounding
             nds = [0, 1, 3] if tier == "quick" else [0, 1, 2, 3, 4, 5, 6]
@@ -192,7 +212,7 @@ def cases(tier, seed):
 def run(run):
     run.rule = (
         "E1 on the conversion function: roots = the enumerated corpora of C01 (all single kinds, all pairs of base kinds, root attribute), C08 (reference sharing), "
-        "all authored orders of 4 gradients in defs with one unused / one replaced by a transformed copy (2 id sets), the rendering checks' corpora (C02-C06, C19) and every svg file under /repo/tests; options: default, plus drop_unsupported=True on documents with unsupported elements and allow_text (+drop_unsupported) on documents with text; ndigits 3 (and 0) everywhere, all of 0..6 on every 16th (quick) / 4th (thorough) "
+        "near-closed contours (last point 1e-9 .. 0.4 off the start, coordinates around 0, 1e3, 1e6, 1e9; all ndigits), all authored orders of 4 gradients in defs with one unused / one replaced by a transformed copy (2 id sets), the rendering checks' corpora (C02-C06, C19) and every svg file under /repo/tests; options: default, plus drop_unsupported=True on documents with unsupported elements and allow_text (+drop_unsupported) on documents with text; ndigits 3 (and 0) everywhere, all of 0..6 on every 16th (quick) / 4th (thorough) "
         "root and on the repository files. From each root: root -> out1 -> out2 -> out3. Oracle: out2 == out1 and out3 == out2 byte for byte; "
         "SVG.fromstring(out1).checkpicosvg() == (). states = distinct documents seen, transitions = conversions. Non-trivial = root converts and out1 != root."
     )
